@@ -321,6 +321,9 @@ impl Uuid {
     #[verifier::external_body]
     pub fn as_bytes(&self) -> (r: &[u8; 16]) ensures r@ == spec_uuid_bytes(*self) { unimplemented!() }
 }
+// L24: test-only slate id (tx.rs SLATE_COUNTER)
+#[verifier::external_body]
+pub fn vf_test_slate_id() -> (r: Uuid) { unimplemented!() }
 // `format!("{}", uuid)` / `uuid.to_string()`: the hyphenated text form
 pub uninterp spec fn spec_uuid_str(u: Uuid) -> Seq<char>;
 #[verifier::external_body]
